@@ -225,6 +225,36 @@ def main(tier, seed):
         except Exception as e:
             rep.violation('poly:exception:%s' % type(e).__name__, 'forward driver raises %r on an integer polynomial program' % (e,), dict(kind='poly', prog=prog, case=meta, exc=repr(e)))
 
+    # ---------------- tensors of homogeneous polynomials with a distinct coefficient for EVERY multi-index of degree d (all mixed monomials,
+    # also those with two or more exponents >= 2), at a non-zero integer point: partial^alpha f / alpha! = c_alpha exactly
+    import algopy.exact_interpolation as ei
+    sweep = [(1, 4), (2, 1), (2, 2), (2, 3), (2, 4), (2, 5), (3, 2), (3, 3), (3, 4), (4, 2), (4, 3)] + ([(2, 6), (3, 5), (4, 4), (5, 3)] if tier != 'quick' else [])
+    for N, d in sweep:
+        mi = [tuple(int(a) for a in al) for al in ei.generate_multi_indices(N, d)]
+        coef = [rng.choice([-1, 1]) * (k + 2) for k in range(len(mi))]
+        x = numpy.array([float(rng.choice([-2, -1, 1, 2, 3])) for _ in range(N)])
+
+        def fh(z):
+            acc = None
+            for c, al in zip(coef, mi):
+                t = None
+                for i in range(N):
+                    if al[i]:
+                        q = z[i] ** al[i]
+                        t = q if t is None else t * q
+                t = t * float(c)
+                acc = t if acc is None else acc + t
+            return acc
+        rep.count('driver', 'extract_tensor:homogeneous:d=%d' % d)
+        rep.case(('tensor-homogeneous', N, d, repr(coef), repr(x.tolist())), N >= 2, sample=dict(driver='extract_tensor', kind='homogeneous polynomial, all multi-indices', N=N, d=d))
+        try:
+            got = numpy.asarray(UTPM.extract_tensor(N, fh(UTPM.init_tensor(d, x)), as_full_matrix=False), dtype=float).reshape(-1)
+            if got.shape != (len(mi),) or not numpy.all(numpy.abs(got - numpy.array(coef, dtype=float)) <= 1e-9 * d ** d * (1 + numpy.abs(coef))):
+                rep.violation('tensor:homogeneous', 'extract_tensor (N=%d, d=%d) of sum_alpha c_alpha x^alpha: %s instead of the coefficients %s' % (N, d, got.tolist(), coef),
+                              dict(kind='tensor-homogeneous', N=N, d=d, coef=coef, x=x.tolist(), got=got.tolist()))
+        except Exception as e:
+            rep.violation('tensor:homogeneous:exception', 'extract_tensor (N=%d, d=%d) raises %r' % (N, d, e), dict(kind='tensor-homogeneous', N=N, d=d, exc=repr(e)))
+
     # ---------------- smooth programs: mutual consistency
     n_s = 40 if tier == 'quick' else 600
     for _ in range(n_s):
